@@ -192,10 +192,74 @@ def run_hooks(ctx):
             pass
 
 
+# ---------------------------------------------------------------------------
+# chains legs: the C03 chain space (await / yield from through wrappers, __await__
+# objects, asend / athrow / aclose awaitables, anext() awaitables, plain iterators)
+
+LEGS.append({"name": "chains312", "python": "3.12", "quick": 6000, "thorough": 150000, "quick_s": 30, "thorough_s": 300, "params": {"mode": "chains"}})
+LEGS.append({"name": "chains310", "python": "3.10", "quick": 3000, "thorough": 60000, "quick_s": 30, "thorough_s": 200, "params": {"mode": "chains"}})
+LEGS.append({"name": "chains39", "python": "3.9", "quick": 3000, "thorough": 60000, "quick_s": 30, "thorough_s": 200, "params": {"mode": "chains"}})
+
+
+def run_chains(ctx):
+    import gc
+    import warnings
+    import stackscope
+    from ..kernel import Violation
+    from ..world import chains, observe
+    from . import c03
+
+    world = chains.ChainWorld(ctx.tape, ctx)
+    ctx.case["program"] = world.text
+    was = gc.isenabled()
+    gc.disable()
+    try:
+        W, root, rk, step, throw = c03.start(world)
+        n = 0
+        while n < 20:
+            r = step()
+            if r[0] != "susp":
+                break
+            n += 1
+        try:
+            root.close() if not hasattr(root, "aclose") else None
+        except BaseException:
+            pass
+        W.closed = True
+        for target in range(n):
+            W, root, rk, step, throw = c03.start(world)
+            for _ in range(target + 1):
+                r = step()
+            if r[0] != "susp":
+                break
+            W.root = root
+            bat = observe.Battery(ctx, [], W)
+            with warnings.catch_warnings():
+                warnings.simplefilter("ignore")
+                st = stackscope.extract(root)
+            ctx.stat("chain_suspensions_checked")
+            bat.check_c16(W, st, root, "suspended")
+            # extract_outermost(x) is the first frame of extract(x)
+            if st.frames:
+                fo = stackscope.extract_outermost(root)
+                f0 = st.frames[0]
+                if fo.pyframe is not f0.pyframe or fo.lineno != f0.lineno or fo.origin is not f0.origin:
+                    raise Violation("c16_outermost_differs", "extract_outermost(root) is not the first frame of extract(root)", {})
+            ctx.cover(("c16-chain", observe.PY, tuple(c03.world_links(world))[:6], target))
+            W.closed = True
+    finally:
+        world.close()
+        if was:
+            gc.enable()
+    ctx.sample = {"program": world.text}
+
+
 _run_program = run
 
 
 def run(ctx):
     if ctx.params.get("mode") == "hooks":
         return run_hooks(ctx)
+    if ctx.params.get("mode") == "chains":
+        return run_chains(ctx)
     return _run_program(ctx)
